@@ -1,5 +1,6 @@
 import Litep2pVerif.Common.Parse
 import Litep2pVerif.Model.Service.Conns
+import Litep2pVerif.Model.Service.Known
 /-!
 Line-protocol driver for the `TransportService` model (C08).
 
@@ -32,8 +33,8 @@ structure DState where
   svc : State := {}
   inbox : List Inner := []
   chans : List (Nat × Chan) := []
-  /-- peer → sorted ports of the addresses stored for it (all end with the peer's own id) -/
-  known : List (Nat × List Nat) := []
+  /-- peer → sorted texts (`showStored`) of the addresses stored for it -/
+  known : List (Nat × List String) := []
   /-- the manager's command channel (texts as `mgr_recv` prints them) -/
   mgrQ : List String := []
 
@@ -59,11 +60,42 @@ def insertNat (x : Nat) : List Nat → List Nat
   | [] => [x]
   | y :: ys => if x < y then x :: y :: ys else if x = y then y :: ys else y :: insertNat x ys
 
-def knownGet (k : List (Nat × List Nat)) (p : Nat) : Option (List Nat) :=
+/-- Sorted insertion without duplicates (the adapter sorts the texts; distinct stored addresses have
+distinct texts in every case the model predicts). -/
+def insertStr (x : String) : List String → List String
+  | [] => [x]
+  | y :: ys => if x < y then x :: y :: ys else if x = y then y :: ys else y :: insertStr x ys
+
+def knownGet (k : List (Nat × List String)) (p : Nat) : Option (List String) :=
   (k.find? (fun x => x.1 == p)).map (·.2)
 
-def knownPut (k : List (Nat × List Nat)) (p : Nat) (v : List Nat) : List (Nat × List Nat) :=
+def knownPut (k : List (Nat × List String)) (p : Nat) (v : List String) : List (Nat × List String) :=
   (p, v) :: k.filter (fun x => x.1 != p)
+
+/-- The adapter's `address_of`: 10.0.0.1 / 0.0.0.0, the peer `p`, somebody else (`p + 100`),
+`/p2p-circuit` as an `other` component. -/
+def kindAddr (kind : String) (p port : Nat) : Option Addr.Multiaddr :=
+  let ip : Addr.Comp := .ip4 ⟨167772161, false, false, false⟩
+  let circuit : Addr.Comp := .other 290
+  match kind with
+  | "tcp" => some [ip, .tcp port]
+  | "tcpp" => some [ip, .tcp port, .p2p p]
+  | "wrong" => some [ip, .tcp port, .p2p (p + 100)]
+  | "two" => some [ip, .tcp port, .p2p (p + 100), .p2p p]
+  | "twow" => some [ip, .tcp port, .p2p p, .p2p (p + 100)]
+  | "relay" => some [ip, .tcp port, .p2p (p + 100), circuit, .p2p p]
+  | "circ" => some [ip, .tcp port, .p2p (p + 100), circuit]
+  | "udp" => some [ip, .udp port]
+  | "unspec" => some [.ip4 ⟨0, true, false, false⟩, .tcp port]
+  | _ => none
+
+/-- The adapter's `show_address`: port, `!` unless the trailing `/p2p` names `p`, `~` unless the
+shape is `/<host>/<tcp|udp>/p2p/<id>`. -/
+def showStored (p : Nat) (a : Addr.Multiaddr) : String :=
+  let port := (a.findSome? fun c => match c with | .tcp q => some q | .udp q => some q | _ => none).getD 0
+  let own := Addr.lastP2p a == some p
+  let plain := a.length == 3 && (Addr.lastP2p a).isSome
+  toString port ++ (if own then "" else "!") ++ (if plain then "" else "~")
 
 def MGR_CHANNEL : Nat := 64
 
@@ -195,12 +227,16 @@ def step (st : DState) (line : String) : DState × String :=
   | ["known", p, kind, port] =>
     match p.toNat?, port.toNat? with
     | some p, some port =>
-      if !(["tcp", "tcpp", "wrong", "udp", "unspec"].contains kind) then (st, "bad-op") else
+      match kindAddr kind p (port % 65536) with
+      | none => (st, "bad-op")
+      | some a =>
       -- `or_default()`: the peer gets an entry even if nothing is added
       let cur := (knownGet st.known p).getD []
-      let new := if kind = "tcp" || kind = "tcpp" then insertNat (port % 65536) cur else cur
+      -- the REAL composition: the service's closure, then the handle's filter (TCP enabled, no listen address)
+      let kept := Service.addKnownAddress true [] p [a]
+      let new := kept.foldl (fun acc b => insertStr (showStored p b) acc) cur
       ({ st with svc := (Service.step st.svc .managerCall).1, known := knownPut st.known p new },
-        "stored=[" ++ joinWith "," (new.map toString) ++ "]")
+        "stored=[" ++ joinWith "," new ++ "]")
     | _, _ => (st, "bad-op")
   | ["dial", p] =>
     match p.toNat? with
